@@ -6,6 +6,7 @@
 import Spydr.Edif.LemmasLex
 import Spydr.Edif.LemmasNames
 import Spydr.Edif.LemmasPins
+import Spydr.Edif.LemmasCell
 namespace Spydr.Edif.C03
 open Spydr.Edif
 
@@ -56,5 +57,157 @@ theorem member_index_roundtrip (cx : DefCtx) (P I : Str) (k pi ii li di : Nat) (
     parsePortRef cx [A "portref", .list [A "member", .atom P, .atom (natStr k)], .list [A "instanceref", .atom I]]
       = .ok (.inst ii pi k) :=
   member_index_inst cx P I k pi ii li di inst d p hP hI hfi hi hr hd hf hp hk
+
+/-!
+### edif_roundtrip
+
+Full statement (C03, stretch goal of DESIGN §6), kept here for reference:
+
+    theorem edif_roundtrip (n : CNetlist) (ts : List Nat) :
+        WF n → Named n → Expressible n → TopoOrdered n →
+        ∃ e n', toSExp ts n = .ok e ∧ ofSExp e = .ok n' ∧ view03 n' = view03 n
+    theorem parse_compose_parse : ofSExp e = .ok n → ∃ e' n', toSExp ts (edifified n) = .ok e' ∧
+        ofSExp e' = .ok n' ∧ view03 n' = view03 n
+
+where `n` is the netlist after `_edifify_netlist` (libraries / cells in the writer's order, every
+object with its EDIF.identifier).  With `read_lex_layout` the characters in between drop out.
+
+Proved: the statement for ONE CELL in the reader's scope (`edif_roundtrip_partial` below): ports,
+instances (reference, properties) and cables (name, base index, every wire's pins in order) of the
+re-read cell are those of the written cell.  The hypotheses `CellOK` are the per-cell content of
+WF / Named / Expressible / TopoOrdered: legal identifiers, printable names, pairwise different sibling
+names and identifiers, non-empty ports and cables, scalar cables not named like a bus bit, every pin
+on at most one wire, every instance's reference resolving — in the scope the reader has when it
+reaches the cell — to the re-read image of the referenced cell.
+Missing for the full statement: (1) the fold of this theorem over the cells of a library and the
+libraries of the netlist (maintaining "the cells read so far are the images of the cells written so
+far", which discharges the resolution hypotheses of `InstOK`/`PinOK` from case-insensitive
+distinctness and the topological order), (2) the `(status …)` block and the `(design …)` construct,
+(3) the projection to `view03`.  These are covered by the correspondence check (writer tokens,
+reader on the written text) and by P evaluated on the implementation for every generated netlist.
+-/
+
+/-- **edif_roundtrip_partial / cell_roundtrip** — for a well-formed, named, expressible cell whose
+    references resolve in the reader's scope, the reader applied to the s-expression the writer
+    emits for the cell returns a cell with the same name and identifier, the same ports (order,
+    name, identifier, direction, width, array-ness), the same instances (name, identifier,
+    referenced cell and library, properties with their types) and the same cables (name, identifier,
+    array-ness, base index, every wire joined to the same port bits and instance pin bits in the
+    same order). -/
+theorem edif_roundtrip_partial (libs : List CLib) (sc : Scope) (d : CDef) (ident name : Str) (iws : List IW)
+    (h : CellOK libs sc d ident name iws) :
+    ∃ r, defSExp libs d = .ok (.list (A "Cell" :: r)) ∧
+      parseCell sc (A "Cell" :: r) = .ok (readCell d ident name iws) :=
+  cell_roundtrip libs sc d ident name iws h
+
+/-- what `readCell` says about the parts named in the property: ports … -/
+theorem readCell_ports (d : CDef) (ident name : Str) (iws : List IW) (k : Nat) (p : CPort) (hp : d.ports[k]? = some p) :
+    ∃ p', (readCell d ident name iws).ports[k]? = some p' ∧ p'.dir = p.dir ∧ p'.width = p.width ∧
+      p'.isArray = p.isArray ∧ identOf p'.data = some (idOf p.data) ∧ nameOf p'.data = some (nmOf p.data) := by
+  refine ⟨readPort1 p, by simp [readCell, hp], rfl, rfl, ?_, identOf_readPort _ _ _, nameOf_readPort _ _ _⟩
+  simp only [readPort1, readPort, CPort.isArray, CPort.isScalar]
+  by_cases h : p.width > 1 <;> simp [h]
+
+/-- … and cables (wires, base index of array cables, name) -/
+theorem readCell_cables (d : CDef) (ident name : Str) (iws : List IW) (k : Nat) (c : CCable) (hc : d.cables[k]? = some c) :
+    ∃ c', (readCell d ident name iws).cables[k]? = some c' ∧ c'.wires = c.wires ∧
+      nameOf c'.data = some (nmOf c.data) ∧ identOf c'.data = some (idOf c.data) ∧
+      (¬ (c.wires.length = 1 ∧ c.isArray = false) → c'.lower = c.lower ∧ c'.isArray = true) := by
+  refine ⟨readCable1 c, by simp [readCell, hc], readCable_wires _ _ _, nameOf_readCable _ _ _, identOf_readCable _ _ _, ?_⟩
+  intro h
+  simp only [readCable1, readCable, h, if_false]
+  exact ⟨rfl, busCable_isArray _ _ _ _⟩
+
+/-! non-vacuity: a two-cell library; `top` (renamed, `top$`) instantiates `leaf`, joins a scalar net to
+    its own port and the instance's scalar pin, and a two-bit bus based at 4 to the instance's array
+    port.  It satisfies `CellOK` in the scope the reader has after reading `leaf`. -/
+namespace Example
+
+def nd (s : String) : Data := [(kNAME, .str s.toList), (kIDENT, .str s.toList)]
+
+/-- leaf cell: scalar input `A`, two-bit output `B` -/
+def leaf : CDef :=
+  { data := nd "leaf",
+    ports := [{ data := nd "A", dir := .inp, width := 1 }, { data := nd "B", dir := .out, width := 2, scalarFlag := false }] }
+
+/-- top cell: port `x`, one instance of `leaf`, a scalar net and a two-bit bus based at 4 -/
+def top : CDef :=
+  { data := [(kNAME, .str "top$".toList), (kIDENT, .str "top_".toList)],
+    ports := [{ data := nd "x", dir := .inp, width := 1 }],
+    insts := [{ data := nd "u1", ref := some (0, 0) }],
+    cables := [{ data := nd "n1", wires := [[.port 0 0, .inst 0 0 0]] },
+               { data := nd "bus", scalarFlag := false, lower := 4, wires := [[.inst 0 1 0], [.inst 0 1 1]] }] }
+
+def lib0 : CLib := { data := nd "work", defs := [leaf, top] }
+
+/-- the reader's scope when it reaches `top`: no earlier library, `leaf` already read -/
+def sc : Scope :=
+  { libs := [], curLib := withName [] "work".toList "work".toList,
+    curDefs := [readCell leaf "leaf".toList "leaf".toList []] }
+
+def iw : IW := ⟨"u1".toList, "u1".toList, [], 0, 0⟩
+
+theorem named (s : String) (hc : checkEdifIdentifier s.toList = true) (hs : s.toList.all isStringChar = true) :
+    NamedOK (nd s) s.toList s.toList := ⟨rfl, hc, rfl, hs⟩
+
+theorem fresh_nil (i n : Str) : FreshIn [] i n := by intro p hp; cases hp
+
+theorem top_CellOK : CellOK [lib0] sc top "top_".toList "top$".toList [iw] := by
+  refine ⟨⟨rfl, by decide, rfl, by decide⟩, ?_, ?_, ?_, by decide⟩
+  · show _ ∧ _ ∧ _ ∧ _ ∧ _
+    exact ⟨named "x" (by decide) (by decide), by decide, fun _ => rfl, fresh_nil _ _, trivial⟩
+  · show _ ∧ _ ∧ _
+    refine ⟨⟨named "u1" (by decide) (by decide), rfl, ?_, ⟨Or.inr ⟨rfl, rfl⟩, by intro t ht; cases ht⟩⟩, fresh_nil _ _, trivial⟩
+    refine ⟨lib0, leaf, "leaf".toList, "work".toList, readCell leaf "leaf".toList "leaf".toList [], "netlist".toList,
+      rfl, rfl, rfl, rfl, by decide, by decide, ⟨"work".toList, by decide +kernel, by decide +kernel⟩, by decide +kernel, rfl,
+      by decide +kernel, by decide⟩
+  · -- cables
+    have hpx : PinOK [lib0] top { sc := sc, ports := top.ports.map readPort1, insts := [iw].map IW.read } (.port 0 0) :=
+      ⟨⟨_, _, "x".toList, rfl, rfl, by decide, fun _ => rfl, by decide +kernel, rfl, by decide⟩⟩
+    have hpi : ∀ pi bi, (pi = 0 ∧ bi = 0) ∨ (pi = 1 ∧ bi < 2) →
+        PinOK [lib0] top { sc := sc, ports := top.ports.map readPort1, insts := [iw].map IW.read } (.inst 0 pi bi) := by
+      intro pi bi h
+      rcases h with ⟨rfl, rfl⟩ | ⟨rfl, hb⟩
+      · exact ⟨⟨_, 0, 0, leaf, _, _, "A".toList, "u1".toList, iw.read, readCell leaf "leaf".toList "leaf".toList [],
+          rfl, rfl, rfl, rfl, rfl, by decide, rfl, by decide, fun _ => rfl, by decide +kernel, rfl, rfl, rfl,
+          by decide +kernel, rfl, by decide⟩⟩
+      · exact ⟨⟨_, 0, 0, leaf, _, _, "B".toList, "u1".toList, iw.read, readCell leaf "leaf".toList "leaf".toList [],
+          rfl, rfl, rfl, rfl, rfl, by decide, rfl, by decide, fun h => by simp [CPort.isArray, CPort.isScalar] at h,
+          by decide +kernel, rfl, rfl, rfl, by decide +kernel, rfl, hb⟩⟩
+    show _ ∧ _ ∧ _ ∧ _ ∧ _
+    refine ⟨⟨named "n1" (by decide) (by decide), by decide, ?_, fun _ _ => ⟨by decide +kernel, by decide⟩,
+      fun h => absurd ⟨rfl, rfl⟩ h⟩, fresh_nil _ _, ⟨named "bus" (by decide) (by decide), by decide, ?_, ?_, ?_⟩, ?_, trivial⟩
+    · intro w hw pin hp
+      simp only [top, List.mem_singleton] at hw
+      subst hw
+      simp only [List.mem_cons, List.not_mem_nil, or_false] at hp
+      rcases hp with rfl | rfl
+      · exact hpx
+      · exact hpi 0 0 (Or.inl ⟨rfl, rfl⟩)
+    · intro w hw pin hp
+      simp only [top, List.mem_cons, List.not_mem_nil, or_false] at hw
+      rcases hw with rfl | rfl <;> (simp only [List.mem_singleton] at hp; subst hp)
+      · exact hpi 1 0 (Or.inr ⟨rfl, by decide⟩)
+      · exact hpi 1 1 (Or.inr ⟨rfl, by decide⟩)
+    · intro h; exact absurd h (by decide)
+    · intro _ k hk
+      have : k = 0 ∨ k = 1 := by
+        have : k < 2 := hk
+        omega
+      rcases this with rfl | rfl <;> exact ⟨by decide +kernel, by decide +kernel, by decide +kernel⟩
+    · intro p hp
+      simp only [List.mem_singleton] at hp
+      subst hp
+      exact ⟨by decide, by decide⟩
+
+/-- hence the conclusion holds for it: the reader rebuilds `top` from the writer's text -/
+example : ∃ r, defSExp [lib0] top = .ok (.list (A "Cell" :: r)) ∧
+    parseCell sc (A "Cell" :: r) = .ok (readCell top "top_".toList "top$".toList [iw]) :=
+  edif_roundtrip_partial _ _ _ _ _ _ top_CellOK
+
+example : (readCell top "top_".toList "top$".toList [iw]).cables.map (fun c => (c.lower, c.wires)) =
+    [(0, [[CPin.port 0 0, CPin.inst 0 0 0]]), (4, [[CPin.inst 0 1 0], [CPin.inst 0 1 1]])] := by decide +kernel
+
+end Example
 
 end Spydr.Edif.C03
